@@ -5,7 +5,7 @@ import posixpath
 from msdparser import MSDParserError
 
 from .. import gen, models, ops
-from ..core import RunResult, HarnessError, shash
+from ..core import RunResult, HarnessError, LibraryMisbehaved, shash
 from ..facades import Facade, make_disk
 
 NATIVE_LIKE = ("native", "realos")
@@ -22,7 +22,8 @@ NEAR_MISS = ["x.sm.old", "x.ssca", "sm", "ssc", "x.smx", "song.sm~", "xsm", "x.s
 IMAGES = ["banner.png", "songbn.JPG", "bn.png", "xbg.png", "background.jpeg", "cdtitle.gif",
           "jk_x.png", "jacket.bmp", "albumart.bmp", "x-cd.png", "x disc.png", "x title.png",
           "Banner.PNG", "mybanner2.png", "bnx.png", "bgm.png", "cd.png", "xjk_.png", "disc.png",
-          "ALBUMART.JPG", "x-CD.gif", "BG.PNG", "cdtitle"]
+          "ALBUMART.JPG", "x-CD.gif", "BG.PNG", "cdtitle", "jk_banner.png", "AlbumArt-CD.jpg",
+          "cdtitle-bg.gif", "banner-bg.png", "jacket-cd.png", "jk_bn.png"]
 AUDIO = ["x.ogg", "x.MP3", "song.wav", "a.oga", "x.ogg.bak", "mp3", "x.flac", "X.OGG"]
 OTHER = ["readme.txt", "notes", "thumbs.db", "x.lrc", "video.avi"]
 SUBDIRS = ["sub", "Images", "extra"]
@@ -162,8 +163,31 @@ def generate(prop, rng, run, tier):
            "spelling": gen.wchoice(rng, [(None, 5), ("trailing", 1), ("dslash", 1), ("dot", 1),
                                          ("rel", 1)]),
            "assets_self_load": rng.random() < 0.3}
-    return {"workload": "discover", "property": prop, "config": cfg,
-            "world": {"dirs": dirs, "files": files}, "pack": pack}
+    sc = {"workload": "discover", "property": prop, "config": cfg,
+          "world": {"dirs": dirs, "files": files}, "pack": pack}
+    if rng.random() < 0.4:
+        # history: the same paths scanned again (fresh objects) after the tree changed
+        files2 = dict(files)
+        dirs2 = list(dirs)
+        for _ in range(rng.randint(1, 4)):
+            r = rng.random()
+            keys = sorted(files2)
+            if r < 0.3 and keys:
+                del files2[rng.choice(keys)]
+            elif r < 0.5 and keys:
+                p = rng.choice(keys)
+                d, _, n = p.rpartition("/")
+                files2[d + "/" + _case_variant(rng, n)] = files2.pop(p)
+            elif r < 0.8 and song_names:
+                d = pack + "/" + rng.choice(song_names)
+                n = rng.choice(SIMFILE_NAMES + IMAGES + AUDIO)
+                files2[d + "/" + n] = (b"#TITLE:added;\n" if n.lower().endswith((".sm", ".ssc"))
+                                       else b"added").hex()
+            else:
+                n = rng.choice(["new.png", "new.jpg", "N.GIF"])
+                files2[pack + "/" + n] = b"img".hex()
+        sc["world2"] = {"dirs": dirs2, "files": files2}
+    return sc
 
 
 def fixed_scenarios(prop):
@@ -285,12 +309,10 @@ def _same_loaded(real, exp, lib):
 def _outcome_of_open(fn):
     try:
         return ("ok", fn())
-    except MSDParserError as e:
-        return ("exc", "MSDParserError")
-    except UnicodeDecodeError:
-        return ("exc", "UnicodeDecodeError")
-    except ValueError:
-        return ("exc", "ValueError")
+    except (HarnessError, LibraryMisbehaved):
+        raise
+    except Exception as e:      # whatever the library lets escape is an outcome to judge
+        return ("exc", type(e).__name__)
 
 
 def _listing_seen(disk, d, since):
@@ -318,6 +340,8 @@ def check_c19(sc, res):
     spelling = cfg.get("spelling")
     with Facade(facade, disk) as fa:
         def npath(p):
+            if not isinstance(p, str):
+                raise LibraryMisbehaved("path-is-not-a-string", got=repr(p))
             return norm(fa.unroot(fa.normpath(p)))
 
         def judge_loaded(label, got_outcome, d, chosen_entry):
@@ -485,17 +509,10 @@ def check_c19(sc, res):
                     item = next(it)
                 except StopIteration:
                     break
-                except DuplicateSimfileError:
-                    out.append((("exc", "DuplicateSimfileError"), None, mark))
-                    break
-                except MSDParserError:
-                    out.append((("exc", "MSDParserError"), None, mark))
-                    break
-                except UnicodeDecodeError:
-                    out.append((("exc", "UnicodeDecodeError"), None, mark))
-                    break
-                except ValueError:
-                    out.append((("exc", "ValueError"), None, mark))
+                except (HarnessError, LibraryMisbehaved):
+                    raise
+                except Exception as e:
+                    out.append((("exc", type(e).__name__), None, mark))
                     break
                 n += 1
                 if n > 50:
@@ -567,7 +584,24 @@ def check_c19(sc, res):
                 seen_dirs.append(d)
                 kind, chosen = expected_for(d, mark)
                 if kind == "nolisting":
-                    raise HarnessError("no listing of %s during its pack iteration step" % d)
+                    # The object did not list its directory during this step (it must have
+                    # obtained the entries some other way).  Without the listing it received
+                    # only the listing-independent part can be judged: the simfile must be
+                    # one of the directory's candidates of the preferred kind.
+                    sm_c, ssc_c = tree.simfiles_in(d)
+                    cands = ssc_c or sm_c
+                    res.stats["probe:no-listing-in-iteration-step"] += 1
+                    if with_path and oc[0] == "ok":
+                        chosen = posixpath.basename(npath(path))
+                        if chosen not in cands:
+                            res.violate(P, "openpack-wrong-path", dir=d, got=path, expected=cands)
+                            return
+                        if not judge_loaded(label, oc, d, chosen):
+                            return
+                    elif len(cands) == 1:
+                        if not judge_loaded(label, oc, d, cands[0]):
+                            return
+                    continue
                 if kind == "dup":
                     if oc != ("exc", "DuplicateSimfileError"):
                         res.violate(P, "pack-iteration-duplicate-not-reported", via=label, dir=d,
@@ -619,6 +653,8 @@ def check_c20(sc, res):
     spelling = cfg.get("spelling")
     with Facade(facade, disk) as fa:
         def npath(p):
+            if not isinstance(p, str):
+                raise LibraryMisbehaved("path-is-not-a-string", got=repr(p))
             return norm(fa.unroot(fa.normpath(p)))
 
         kept = []
@@ -784,11 +820,16 @@ def check_c20(sc, res):
 
 def execute(sc):
     res = RunResult()
-    if sc["property"] == "C19":
-        check_c19(sc, res)
-    elif sc["property"] == "C20":
-        check_c20(sc, res)
-    else:
+    check = {"C19": check_c19, "C20": check_c20}.get(sc["property"])
+    if check is None:
         raise HarnessError("discover workload serves C19/C20")
+    check(sc, res)
+    if sc.get("world2") and not res.violations:
+        sc2 = dict(sc)
+        sc2["world"] = sc["world2"]
+        check(sc2, res)
+        for v in res.violations:
+            v.detail["phase"] = "rescan-after-change"
+        res.stats["probe:rescanned-after-tree-changed"] += 1
     res.log(sc["property"], [v.sig() for v in res.violations], sorted(res.stats.items()))
     return res
